@@ -39,6 +39,7 @@ func programCorpus(tier string) func(emit func(progenum.Prog)) {
 	return func(emit func(progenum.Prog)) {
 		testdataProgs(emit)
 		progenum.Odd(emit)
+		progenum.TypeShapes(emit)
 		progenum.Shadow(quick, emit)
 		if quick {
 			progenum.Comments(1, emit)
